@@ -43,6 +43,7 @@ type ReplaySpec struct {
 	Items    []replayItem
 	Rets     []*Term
 	RetTypes []string // string []byte int bool error
+	NoRequires bool
 	sliceOf  map[string]*Term
 }
 
@@ -67,10 +68,10 @@ func scalarGoType(t types.Type) string {
 // buildReplaySpec returns nil when the function is outside the replayable class.
 func (x *Exec) buildReplaySpec(entry *State, vals []*Term) *ReplaySpec {
 	fi := x.fi
-	if fi.Lit != nil || fi.Recv != nil || fi.Decl == nil || x.mode == "lines" || x.mode == "arr" {
+	if fi.Lit != nil || fi.Recv != nil || fi.Decl == nil || x.mode == "arr" {
 		return nil
 	}
-	sp := &ReplaySpec{Fi: fi, Rets: vals, sliceOf: map[string]*Term{}}
+	sp := &ReplaySpec{Fi: fi, Rets: vals, sliceOf: map[string]*Term{}, NoRequires: len(x.c.Requires) == 0}
 	sig := fi.Sig
 	if sig.Variadic() || sig.TypeParams() != nil {
 		return nil
@@ -447,8 +448,12 @@ func runModelSolver(query, mode string, seconds int) string {
 // confirmed on the real code.
 func tryReplay(p *Prelude, o *Obligation) (map[string]any, bool) {
 	sp := o.Replay
-	if sp == nil || o.Mode != "str" && o.Mode != "ctl" {
+	if sp == nil || o.Mode != "str" && o.Mode != "ctl" && o.Mode != "lines" {
 		return nil, false
+	}
+	if o.Mode == "lines" {
+		// texts are abstract (nl, seg) values there: no concrete model; search small concrete inputs instead
+		return searchWitness(p, o)
 	}
 	info := map[string]any{}
 	base := p.buildQuery(o, true, 8)
@@ -516,6 +521,9 @@ func tryReplay(p *Prelude, o *Obligation) (map[string]any, bool) {
 	}
 	out := runModelSolver(queryWith(base, small, "(get-value ("+strings.Join(terms, " ")+"))"), o.Mode, 10)
 	if !strings.HasPrefix(strings.TrimSpace(out), "sat") {
+		if extra, ok := searchWitness(p, o); extra != nil {
+			return extra, ok
+		}
 		info["replay_skipped"] = "no model within 10 s for the size-capped query"
 		return info, false
 	}
@@ -796,4 +804,302 @@ func runCmdTimeout(seconds int, name string, args ...string) (string, error) {
 	defer cancel()
 	out, err := exec.CommandContext(ctx, name, args...).CombinedOutput()
 	return string(out), err
+}
+
+// searchWitness: when the solver gives no model (timeout/unknown, or texts are abstract in the theory), a failing input
+// is searched among a small pool of concrete arguments: the real function is run on every combination in one generated
+// test, and each (input, real output) pair is judged by the solver against the failed clause exactly as in step 3 of
+// tryReplay (clause negated: sat; clause asserted: unsat). Only functions whose parameters are strings, byte slices,
+// ints and bools are searched; package state is left as it is. Pool: texts of up to three lines over
+// {"", "---", "/-/-/-/", "a", "b"} and of four lines over {"", "---", "a"}; ints 0..2; both booleans; at most 400 combinations.
+func searchWitness(p *Prelude, o *Obligation) (map[string]any, bool) {
+	sp := o.Replay
+	if sp == nil || o.Kind != "ensures" || !sp.NoRequires {
+		return nil, false // the closed clause is judged without hypotheses: only for functions without preconditions
+	}
+	var params []replayItem
+	for _, it := range sp.Items {
+		switch it.Kind {
+		case "param":
+			params = append(params, it)
+		case "global", "gslicelen":
+		default:
+			return nil, false
+		}
+	}
+	if len(params) == 0 || len(params) > 3 {
+		return nil, false
+	}
+	lines := []string{"", "---", "/-/-/-/", "a", "b"}
+	var texts []string
+	for _, a := range lines {
+		texts = append(texts, a)
+		for _, b := range lines {
+			texts = append(texts, a+"\n"+b)
+			for _, c := range lines {
+				texts = append(texts, a+"\n"+b+"\n"+c)
+			}
+		}
+	}
+	for _, a := range []string{"", "---", "a"} {
+		for _, b := range []string{"", "---", "a"} {
+			for _, c := range []string{"", "---", "a"} {
+				for _, d := range []string{"", "---", "a"} {
+					texts = append(texts, a+"\n"+b+"\n"+c+"\n"+d)
+				}
+			}
+		}
+	}
+	pool := func(goType string) []replayValue {
+		var out []replayValue
+		switch goType {
+		case "string", "[]byte":
+			for _, t := range texts {
+				out = append(out, replayValue{S: t})
+			}
+		case "int":
+			for i := 0; i <= 2; i++ {
+				out = append(out, replayValue{I: i})
+			}
+		case "bool":
+			out = []replayValue{{B: false}, {B: true}}
+		}
+		return out
+	}
+	combos := [][]replayValue{{}}
+	for _, it := range params {
+		var next [][]replayValue
+		for _, c := range combos {
+			for _, v := range pool(it.GoType) {
+				next = append(next, append(append([]replayValue(nil), c...), v))
+			}
+		}
+		combos = next
+		if len(combos) > 400 {
+			combos = combos[:400]
+		}
+	}
+	// one test running all combinations
+	fi := sp.Fi
+	var sb strings.Builder
+	fmt.Fprintf(&sb, "package %s\n\nimport (\n\t\"fmt\"\n\t\"testing\"\n)\n\nfunc TestVerifReplay(t *testing.T) {\n", fi.Pkg.Types.Name())
+	for ci, c := range combos {
+		var args []string
+		for j, it := range params {
+			args = append(args, c[j].goLit(it.GoType))
+		}
+		fmt.Fprintf(&sb, "\tfunc() {\n\t\tdefer func() {\n\t\t\tif r := recover(); r != nil {\n\t\t\t\tfmt.Printf(\"REPLAY-CASE %d PANIC %%v\\n\", r)\n\t\t\t}\n\t\t}()\n", ci)
+		var rs []string
+		for i := range sp.RetTypes {
+			rs = append(rs, fmt.Sprintf("r%d", i))
+		}
+		fmt.Fprintf(&sb, "\t\t%s := %s(%s)\n", strings.Join(rs, ", "), fi.Decl.Name.Name, strings.Join(args, ", "))
+		for i, rt := range sp.RetTypes {
+			switch rt {
+			case "error":
+				fmt.Fprintf(&sb, "\t\tfmt.Printf(\"REPLAY-CASE %d OUT %d %%v\\n\", r%d == nil)\n", ci, i, i)
+			case "[]byte":
+				fmt.Fprintf(&sb, "\t\tfmt.Printf(\"REPLAY-CASE %d OUT %d %%q\\n\", string(r%d))\n", ci, i, i)
+			case "string":
+				fmt.Fprintf(&sb, "\t\tfmt.Printf(\"REPLAY-CASE %d OUT %d %%q\\n\", r%d)\n", ci, i, i)
+			default:
+				fmt.Fprintf(&sb, "\t\tfmt.Printf(\"REPLAY-CASE %d OUT %d %%v\\n\", r%d)\n", ci, i, i)
+			}
+		}
+		sb.WriteString("\t}()\n")
+	}
+	sb.WriteString("}\n")
+	dir := ensureWorkDir()
+	pkgDir := "."
+	if len(fi.Pkg.GoFiles) > 0 {
+		if rel, err := filepath.Rel(repoDir, filepath.Dir(fi.Pkg.GoFiles[0])); err == nil {
+			pkgDir = rel
+		}
+	}
+	tf := filepath.Join(dir, "replaysearch_"+mangle(o.Name)+"_test.go")
+	os.WriteFile(tf, []byte(sb.String()), 0o644)
+	defer os.Remove(tf)
+	testOut, _ := goTestOverlay(tf, pkgDir, "^TestVerifReplay$", 120, nil)
+	outRe := regexp.MustCompile(`(?m)^REPLAY-CASE (\d+) OUT (\d+) (.*)$`)
+	outs := map[int]map[int]string{}
+	for _, m := range outRe.FindAllStringSubmatch(testOut, -1) {
+		ci, _ := strconv.Atoi(m[1])
+		ri, _ := strconv.Atoi(m[2])
+		if outs[ci] == nil {
+			outs[ci] = map[int]string{}
+		}
+		outs[ci][ri] = m[3]
+	}
+	info := map[string]any{"search": fmt.Sprintf("%d concrete argument combinations run on the real code", len(combos))}
+	tried := 0
+	searchStart := time.Now()
+	for ci, c := range combos {
+		ro := outs[ci]
+		if len(ro) != len(sp.RetTypes) {
+			continue
+		}
+		var bind []*Term
+		desc := map[string]any{}
+		for j, it := range params {
+			bind = append(bind, Eq(it.Term, c[j].term(it.GoType)))
+			desc[it.Name] = valueDesc(c[j], it.GoType)
+		}
+		real := map[string]any{}
+		okBind := true
+		for i, rt := range sp.RetTypes {
+			switch rt {
+			case "error":
+				if ro[i] == "true" {
+					bind = append(bind, Eq(sp.Rets[i], V("err_nil", SErr)))
+				} else {
+					bind = append(bind, Not(Eq(sp.Rets[i], V("err_nil", SErr))))
+				}
+				real[fmt.Sprintf("result%d", i)] = map[string]any{"nil": ro[i] == "true"}
+			case "string", "[]byte":
+				sv, err := strconv.Unquote(ro[i])
+				if err != nil {
+					okBind = false
+				}
+				bind = append(bind, Eq(sp.Rets[i], StrLit(sv)))
+				real[fmt.Sprintf("result%d", i)] = sv
+			case "int":
+				n, err := strconv.Atoi(ro[i])
+				if err != nil {
+					okBind = false
+				}
+				bind = append(bind, Eq(sp.Rets[i], replayValue{I: n}.term("int")))
+				real[fmt.Sprintf("result%d", i)] = n
+			case "bool":
+				bind = append(bind, Eq(sp.Rets[i], replayValue{B: ro[i] == "true"}.term("bool")))
+				real[fmt.Sprintf("result%d", i)] = ro[i] == "true"
+			}
+		}
+		if !okBind {
+			continue
+		}
+		// the clause with the arguments and the real results substituted must be closed (no symbol of the symbolic
+		// execution left); it is then judged on its own, without the path hypotheses: unsatisfiable = false for this pair
+		tried++
+		if tried > 400 || time.Since(searchStart) > 45*time.Second {
+			info["search_stopped"] = fmt.Sprintf("budget reached after %d candidates", tried-1)
+			break
+		}
+		repl := map[string]*Term{}
+		for j, it := range params {
+			repl[it.Term.String()] = c[j].term(it.GoType)
+		}
+		closed := o.Goal
+		for i, rt := range sp.RetTypes {
+			var lit *Term
+			switch rt {
+			case "string", "[]byte":
+				lit = StrLit(real[fmt.Sprintf("result%d", i)].(string))
+			case "int":
+				lit = replayValue{I: real[fmt.Sprintf("result%d", i)].(int)}.term("int")
+			case "bool":
+				lit = replayValue{B: real[fmt.Sprintf("result%d", i)].(bool)}.term("bool")
+			default:
+				lit = nil
+			}
+			if lit != nil {
+				repl[sp.Rets[i].String()] = lit
+			}
+		}
+		closed = substByString(closed, repl)
+		if !closedTerm(closed) {
+			info["replay_skipped"] = "the clause still mentions symbols of the symbolic execution after substituting arguments and results"
+			return info, false
+		}
+		// two queries side by side: the clause asserted (unsat: it is false for this pair) and its negation asserted
+		// (unsat: it holds, next candidate); the holding case answers in milliseconds, so the budget goes to real candidates
+		oc := &Obligation{Func: o.Func, Name: o.Name + "#closed", Kind: "ensures", Goal: Not(closed), Mode: o.Mode, LemmaIndex: -1}
+		oh := &Obligation{Func: o.Func, Name: o.Name + "#closedneg", Kind: "ensures", Goal: closed, Mode: o.Mode, LemmaIndex: -1}
+		qc, qh := p.buildQuery(oc, false, 0), p.buildQuery(oh, false, 0)
+		type ans struct {
+			which string
+			v     string
+		}
+		ch := make(chan ans, 2)
+		go func() { ch <- ans{"violated", firstLine(runModelSolver(qc, o.Mode, 3))} }()
+		go func() { ch <- ans{"holds", firstLine(runModelSolver(qh, o.Mode, 3))} }()
+		violated := false
+		for k := 0; k < 2; k++ {
+			a := <-ch
+			if a.v == "unsat" {
+				violated = a.which == "violated"
+				break
+			}
+		}
+		if !violated {
+			continue
+		}
+		info["inputs"] = desc
+		info["real_outputs"] = real
+		info["closed_clause"] = "unsatisfiable for these values (judged without the path hypotheses)"
+		info["real_code"] = "found by running the real code on small concrete arguments: for this input it returns the values above, which falsify the clause"
+		return info, true
+	}
+	info["replay_skipped"] = "no model from the solvers and no falsifying input among the small concrete arguments tried"
+	return info, false
+}
+
+func firstLine(s string) string {
+	return strings.TrimSpace(strings.SplitN(strings.TrimSpace(s), "\n", 2)[0])
+}
+
+// substByString replaces every subterm whose printed form is a key of m.
+func substByString(t *Term, m map[string]*Term) *Term {
+	if r, ok := m[t.String()]; ok {
+		return r
+	}
+	if len(t.Args) == 0 {
+		return t
+	}
+	args := make([]*Term, len(t.Args))
+	changed := false
+	for i, a := range t.Args {
+		args[i] = substByString(a, m)
+		if args[i] != a {
+			changed = true
+		}
+	}
+	if !changed {
+		return t
+	}
+	nt := *t
+	nt.Args = args
+	return &nt
+}
+
+// closedTerm: no constant of the symbolic execution (parameters p.*, locals l.*, merge/havoc/result symbols) is left.
+func closedTerm(t *Term) bool {
+	ok := true
+	var walk func(t *Term, bound map[string]bool)
+	walk = func(t *Term, bound map[string]bool) {
+		if len(t.Bind) > 0 {
+			nb := map[string]bool{}
+			for k := range bound {
+				nb[k] = true
+			}
+			for _, b := range t.Bind {
+				nb[b.Op] = true
+			}
+			bound = nb
+		}
+		if len(t.Args) == 0 && t.Op != "strlit" && !bound[t.Op] && !isNumeral(t.Op) && t.Op != "true" && t.Op != "false" {
+			for _, pre := range []string{"p.", "l.", "m.", "h.", "r.", "br!", "sk.", "new.", "map!", "box."} {
+				if strings.HasPrefix(t.Op, pre) {
+					ok = false
+				}
+			}
+			if strings.Contains(t.Op, "!") {
+				ok = false
+			}
+		}
+		for _, a := range t.Args {
+			walk(a, bound)
+		}
+	}
+	walk(t, map[string]bool{})
+	return ok
 }
